@@ -20,6 +20,7 @@ func init() {
 			"R20.4 truthful probe outcome: SetScrapeErr receives the function's final error (not a value captured when the defer statement ran); " +
 			"R20.5 the estimate gates assignment: a first assignment happens only for a non-nil status whose health is up; " +
 			"R20.6 the probe uses the current job configuration: the scrape manager's job table is rebuilt only from the configuration being applied. " +
+			"R20.2 also: between the probe and the scheduling of the retry nothing but 'the probe returned an error' decides (every failed probe of a discovered target is retried). " +
 			"Not decided: timing, queue capacity, remove/re-add histories.",
 		Assumptions: []string{"go/types and go/ssa are correct", "lock identity is by mutex field, not by instance"}})
 }
@@ -252,6 +253,18 @@ func runC20(p *engine.Prog, r *engine.Report) {
 					needErr := engine.Not(engine.EqAtom(pfi.T(pc).S, "nil"))
 					if ok, have := pfi.Implies(fi.MC.Block(), needErr); !ok {
 						probs = append(probs, "the retry is scheduled without 'probe returned an error' on the path: "+strings.Join(nonStructural(have), " ∧ "))
+					}
+					// ... and for every probe error: nothing else decides between the probe and the scheduling
+					before := map[string]bool{}
+					for _, g := range pfi.Guards(pc.Block()) {
+						before[g] = true
+					}
+					errT := pfi.T(pc).S
+					for _, g := range nonStructural(pfi.Guards(fi.MC.Block())) {
+						if before[g] || strings.Contains(g, "eq("+min2(errT, "nil")+","+max2(errT, "nil")+")") {
+							continue
+						}
+						probs = append(probs, "a failed probe is retried only when "+short(g)+" (every failed probe of a discovered target must be retried)")
 					}
 					// same target as probed
 					if len(pc.Call.Args) > 0 && fi.T(in.X).S != pfi.T(pc.Call.Args[len(pc.Call.Args)-1]).S {
